@@ -30,7 +30,7 @@ META = {
     "bounds": {
         "quick": {"history_length": "<= 5 operations over 7 kinds", "call_arguments": "base + i, base an unbounded Int",
                   "inductive_step": "multiplicities unbounded (z3 Int >= 0), 3-capture universe, 8 subsets, push and pop"},
-        "thorough": {"history_length": "<= 7", "call_arguments": "as quick", "inductive_step": "as quick"},
+        "thorough": {"history_length": "<= 6", "call_arguments": "as quick", "inductive_step": "as quick"},
     },
     "out_of_scope": ["more than three probes / two functions", "with-blocks that are not properly nested among themselves "
                      "(Python cannot express them)", "threads (C08)", "generators (C09)"],
@@ -249,7 +249,7 @@ def build(case):
 
 def cases(tier, seed):
     th = tier == "thorough"
-    n = 7 if th else 5
+    n = 6 if th else 5
     cs = []
     for first in range(7):
         for second in range(8):
